@@ -9,6 +9,7 @@
 // The spec's "facts" array:  {"kind":"const","pkg":DIR,"name":N,"as":LEANNAME}
 //	{"kind":"string","pkg":DIR,"name":N,"as":L}         string const/var initialised by a literal (or regexp.MustCompile(lit))
 //	{"kind":"calls","pkg":DIR,"func":F,"as":L}          F is "Func" or "Recv.Method"; → List String
+//	{"kind":"callsdeep","pkg":DIR,"func":F,"as":L,"depth":N}  like calls, same-receiver helper methods inlined (robust to extract/rename)
 //	{"kind":"cases","pkg":DIR,"func":F,"as":L}          case types/values of every switch in F → List String
 //	{"kind":"funcs","pkg":DIR,"prefix":P,"as":L}        names of top-level funcs with prefix P → List String
 //	{"kind":"versions","pkg":DIR,"name":SLICE,"as":L}   slice literal of `v(protocol, names…)` variables (version.Versions) →
@@ -39,6 +40,7 @@ import (
 type fact struct {
 	Kind, Pkg, Name, Func, Prefix, As string
 	Versions                          string // "registry": directory of the version package
+	Depth                             int    // "callsdeep": how many levels of same-receiver helpers to inline (default 1)
 }
 type spec struct {
 	ID    string `json:"id"`
@@ -390,6 +392,30 @@ func callSeq(fn *ast.FuncDecl) []string {
 	return out
 }
 
+// callSeqDeep: callSeq with same-receiver method calls inlined (see the "callsdeep" fact kind).
+func callSeqDeep(p *pkgInfo, fn *ast.FuncDecl, levels int, seen map[string]bool) []string {
+	cs := callSeq(fn)
+	if fn.Recv == nil || len(fn.Recv.List) != 1 || len(fn.Recv.List[0].Names) != 1 || levels <= 0 {
+		return cs
+	}
+	rv := fn.Recv.List[0].Names[0].Name + "."
+	rt := recvName(fn.Recv.List[0].Type) + "."
+	var out []string
+	for _, c := range cs {
+		if strings.HasPrefix(c, rv) && !strings.Contains(c[len(rv):], ".") {
+			key := rt + c[len(rv):]
+			if callee, ok := p.funcs[key]; ok && !seen[key] {
+				seen[key] = true
+				out = append(out, callSeqDeep(p, callee, levels-1, seen)...)
+				delete(seen, key)
+				continue
+			}
+		}
+		out = append(out, c)
+	}
+	return out
+}
+
 func caseList(fn *ast.FuncDecl) []string {
 	var out []string
 	ast.Inspect(fn, func(m ast.Node) bool {
@@ -495,6 +521,21 @@ func main() {
 			}
 			cs := callSeq(fn)
 			fmt.Fprintf(&sb, "/-- %s: call sequence of %s -/\ndef %s : List String := %s\n\n", f.Pkg, f.Func, f.As, leanList(cs))
+			summary[f.As] = cs
+		case "callsdeep":
+			// like "calls", but calls to methods of the same receiver (`c.helper(...)` inside `(c *T) F`) that exist in
+			// the package are replaced by the callee's own call sequence (transitively, bounded depth): the fact then
+			// describes what F does, however the body is split into helpers — robust to extract/rename refactors.
+			fn, ok := p.funcs[f.Func]
+			if !ok {
+				die("%s: func %s not found in %s", sp.ID, f.Func, f.Pkg)
+			}
+			lv := f.Depth
+			if lv <= 0 {
+				lv = 1
+			}
+			cs := callSeqDeep(p, fn, lv, map[string]bool{f.Func: true})
+			fmt.Fprintf(&sb, "/-- %s: call sequence of %s with same-receiver helpers inlined -/\ndef %s : List String := %s\n\n", f.Pkg, f.Func, f.As, leanList(cs))
 			summary[f.As] = cs
 		case "cases":
 			fn, ok := p.funcs[f.Func]
